@@ -32,12 +32,13 @@ NEEDS = {
 
 def main():
     letter, resdir, prefix = sys.argv[1], sys.argv[2], sys.argv[3]
-    rnd = {"A": 1, "B": 1, "C": 2, "D": 3, "E": 4, "F": 5, "G": 6, "H": 7}[letter]
+    rnd = {"A": 1, "B": 1, "C": 2, "D": 3, "E": 4, "F": 5, "G": 6, "H": 7, "J": 8}[letter]
     kinds = {"D": "two cooperating sites that each look fine alone, or state that survives between uses",
              "E": "a performance optimisation a maintainer would merge that is subtly wrong for a narrow class of inputs",
              "F": "a clean-up / refactoring / modernisation commit that is not quite behaviour-preserving",
              "G": "a feature addition, an over-broad bug fix or an error-handling improvement that changes behaviour the property pins",
-             "H": "a hardening / resource-limit / sanitising commit, a portability adaptation or an internal API reshape"}
+             "H": "a hardening / resource-limit / sanitising commit, a portability adaptation or an internal API reshape",
+             "J": "any realistic commit designed to slip past a strong tester whose methods (exhaustive small inputs, differential reference, metamorphic relations, boundary values, long inputs, histories, race detector) were described to the author"}
     sys.path.insert(0, os.path.dirname(os.path.abspath(__file__)))
     if letter == "E":
         from seedmeta_e import NEEDS_E
@@ -51,6 +52,9 @@ def main():
     elif letter == "H":
         from seedmeta_h import NEEDS_H
         table = NEEDS_H
+    elif letter == "J":
+        from seedmeta_j import NEEDS_J
+        table = NEEDS_J
     else:
         table = NEEDS[letter]
     for pid, (needs, hist) in sorted(table.items()):
